@@ -48,7 +48,7 @@ def expected(seq, limit):
     return None
 
 
-def run_case(seq, limit, catching, delay, is_async, prior=None):
+def run_case(seq, limit, catching, delay, is_async, prior=None, facade=None):
     """`prior`: outcome sequence of an earlier invocation of the *same* wrapper (the statement is per
     invocation, whatever happened before)."""
     sleeps = []
@@ -82,8 +82,23 @@ def run_case(seq, limit, catching, delay, is_async, prior=None):
         sleeps.append(x)
     R.sleep = fake_sleep
     if is_async:
-        async def fn(*a, **k):
-            return outcome()
+        if facade == "wrap_async":
+            # what is retried is the callable handed to retry: an `async def` forwarder (haiway.wrap_async) around a plain function
+            def plain(*a, **k):
+                return outcome()
+            from haiway import wrap_async
+            fn = wrap_async(plain)
+        elif facade == "wraps":
+            async def inner(*a, **k):
+                return outcome()
+
+            def marker(*a, **k):         # an unrelated plain function whose metadata the coroutine function carries
+                raise AssertionError("never called")
+            import functools
+            fn = functools.wraps(marker)(inner)
+        else:
+            async def fn(*a, **k):
+                return outcome()
         wrapped = retry(limit=limit, delay=d, catching=catching)(fn)
         if prior is not None:
             try:
@@ -149,6 +164,16 @@ def search():
                                 return n, dict(limit=limit, outcomes=list(seq), catching=repr(catching), delay=repr(delay),
                                                variant="async" if is_async else "sync", problems=p,
                                                earlier_invocation_of_the_same_wrapper=prior)
+    # the callable kinds a retried function comes in: an async forwarder around a plain function, a coroutine function
+    # carrying another function's metadata (__wrapped__ points at a function of the other kind)
+    for facade in ("wrap_async", "wraps"):
+        for limit in (1, 2):
+            for seq in itertools.product(("ok", "caught", "uncaught"), repeat=limit + 1):
+                for delay in (None, 0.5):
+                    n += 1
+                    p = run_case(list(seq), limit, Caught, delay, True, None, facade)
+                    if p:
+                        return n, dict(limit=limit, outcomes=list(seq), delay=repr(delay), variant=f"async ({facade})", problems=p)
     return n, None
 
 
